@@ -2101,3 +2101,16 @@ twin('C08', 'blob-sweep-cutoff-flipped', BLOBPY,
      'BlobStorage._blob_sweep_files',
      'if serial is not None and serial > cutoff:',
      'if serial is not None and cutoff < serial:')
+breaker('C19', 'minkey-boundary-guard-removed', 'C19.R6', FSIPY,
+        'fsIndex.minKey',
+        '''                if smallest_prefix == b'\\xff' * 6:
+                    raise  # there is no larger prefix (it would wrap)
+''', '')
+twin('C19', 'maxkey-boundary-guard-not-equal-form', FSIPY, 'fsIndex.maxKey',
+     '''                if biggest_prefix == b'\\0' * 6:
+                    raise  # there is no smaller prefix
+                next_prefix = prefix_minus_one(biggest_prefix)''',
+     '''                if biggest_prefix != b'\\0' * 6:
+                    next_prefix = prefix_minus_one(biggest_prefix)
+                else:
+                    raise''')
